@@ -549,7 +549,7 @@ OPS = {
     "dict_normalize": (lambda r: D.normalize_measurement_outcome_distribution(r), ("rawdict",)),
 }
 # the oracle's own list of in-place operations: op -> (receiver position, nothing changes when it raises)
-MUTATORS = {"wf_setitem": (0, True), "wf_setitem_seq": (0, True), "wf_setitem_symseq": (0, False), "meas_add_counts": (0, False), "ev_to_real": (0, False), "dict_normalize": (0, False)}
+MUTATORS = {"wf_setitem": (0, True), "wf_setitem_seq": (0, True), "wf_setitem_symseq": (0, True), "meas_add_counts": (0, False), "ev_to_real": (0, False), "dict_normalize": (0, False)}
 FAMILY = {"circ": "circuit", "circset": "circuit", "gate": "gate", "gop": "gate", "op": "operator", "meas": "measurements",
           "par": "measurements", "ev": "measurements", "freq": "measurements", "check": "measurements", "dist": "distribution",
           "dict": "distribution", "wf": "wavefunction"}
@@ -1084,5 +1084,13 @@ def w_f29():
     return st == "err" and after != before, f"wf=Wavefunction(Matrix([alpha,0.5,0.5,beta])); wf[1]=[1.0,1.0] -> {st} {res}; entries afterwards {after}"
 
 
+def w_f37():
+    wf = Wavefunction(np.array([0.6, -0.8j, 0, 0], dtype=complex))
+    before = [complex(z) for z in wf]
+    st, res = outcome(wf.__setitem__, slice(0, 2), [0.5, sympy.Symbol("gamma")])
+    after = [complex(z) for z in wf]
+    return st == "err" and after != before, f"wf=Wavefunction([0.6,-0.8j,0,0]); wf[0:2]=[0.5,gamma] -> {st} {res}; entries afterwards {after}"
+
+
 if __name__ == "__main__":
-    H.main(gen, run_case, {"F1": w_f1, "F29": w_f29})
+    H.main(gen, run_case, {"F1": w_f1, "F29": w_f29, "F37": w_f37})
